@@ -11,7 +11,7 @@ LEVEL = "exploration"
 RULE = ("(a) last-day rule: 'Month YYYY' with PREFER_DAY_OF_MONTH=last for every month of the years listed in the "
         "evidence (quick: 400 years covering every century/leap class; thorough: all years 1..9999 = exhaustive); "
         "(b) reference days 28-31/Feb 29 and uniform x target months x all 9 preference pairs x {Month YYYY, Mon YYYY, "
-        "MM/YYYY, YYYY, full date, full date + time} x RETURN_TIME_AS_PERIOD; (c) custom formats %B %Y, %m/%Y, %Y, %b %y "
+        "MM/YYYY, YYYY, 'D YYYY' / 'Dth of YYYY' (day 13-28 stated, month missing), full date, full date + time} x RETURN_TIME_AS_PERIOD; (c) custom formats %B %Y, %m/%Y, %Y, %b %y "
         "with first/last and four full-date formats, alone or inside a list with 0-2 non-matching formats of other completeness "
         "before and after. Oracle: day = 1 | monthrange | min(ref.day, monthrange); month = 1 | 12 | ref.month; full dates "
         "unchanged; period by construction. non-trivial distinct = distinct (string, reference, preferences) accepted "
@@ -66,6 +66,12 @@ def expected(c):
     if kind == "y":
         em = {"first": 1, "last": 12, "current": b.month}[pm]
         return "%04d" % y, datetime(y, em, day_for(y, em)), "year", None
+    if kind in ("dy", "dy_ord"):
+        # the day (13..28: cannot be read as a month) and the year are stated, the month is not
+        em = {"first": 1, "last": 12, "current": b.month}[pm]
+        sfx = "th" if 4 <= d % 100 <= 20 else {1: "st", 2: "nd", 3: "rd"}.get(d % 10, "th")
+        s = "%d %04d" % (d, y) if kind == "dy" else "%d%s of %04d" % (d, sfx, y)
+        return s, datetime(y, em, d), "day", None
     if kind == "full":
         return "%d %s %04d" % (d, MN[m - 1], y), datetime(y, m, d), "day", None
     if kind == "full_iso":
@@ -158,11 +164,13 @@ def gen_random(rnd):
     else:
         bd = clampday(by, bm, rnd.choice([28, 29, 30, 31, rnd.randrange(1, 32)]))
     b = datetime(by, bm, bd, rnd.randrange(24), rnd.randrange(60))
-    kind = rnd.choice(["my", "my_abbr", "my_num", "y", "full", "full_iso", "full_time", "fmt"])
+    kind = rnd.choice(["my", "my_abbr", "my_num", "y", "full", "full_iso", "full_time", "fmt", "fmt", "dy", "dy_ord"])
     c = {"kind": kind, "y": y, "m": m, "base": iso(b), "pd": rnd.choice(PREFS), "pm": rnd.choice(PREFS),
          "rtp": rnd.random() < 0.3}
-    if kind == "y" and y < 1000:
+    if kind in ("y", "dy", "dy_ord") and y < 1000:
         c["y"] = y + 1000   # a bare 1-3 digit number is not a year-only date string
+    if kind in ("dy", "dy_ord"):
+        c["d"] = rnd.randrange(13, 29)
     if kind in ("full", "full_iso", "full_time"):
         c["d"] = rnd.choice([calendar.monthrange(y, m)[1], rnd.randrange(1, calendar.monthrange(y, m)[1] + 1)])
     if kind == "fmt":
